@@ -3,6 +3,7 @@ C19 - the bundled template engine is a conservative extension of stock Jinja2.
 Static: confinement of Nunavut's lexer/parser modifications to the `*` marker; shape of the two extensions.
 """
 import ast
+import re
 
 try:
     import re._parser as sre_parse
@@ -107,6 +108,82 @@ def rule_lexer(ctx):
                        "non-stock alternative can match a start string that is not followed by `*`: ordinary templates lex differently from stock Jinja2",
                        c.lineno)
     ctx.floor(R, n_alt, 6)
+    _lexer_slots(ctx, R, tree, rel)
+
+
+def _lexer_slots(ctx, R, tree, rel):
+    """Which expression fills each start-string slot of the opener regexes: the bare (unmarked, no `-`) alternative of every
+    block opener - `{% raw %}`, `{% endraw %}`, every `<tag>_begin` - takes the lstrip-aware prefix expression, the `-` and `*`
+    alternatives take the plain escaped start string.  (With lstrip_blocks off both are the same string.)"""
+    init = None
+    for n in ast.walk(tree):
+        if isinstance(n, ast.ClassDef) and n.name == "Lexer":
+            for f in n.body:
+                if isinstance(f, ast.FunctionDef) and f.name == "__init__":
+                    init = f
+    if init is None:
+        raise AnalysisError("anchor missing: Lexer.__init__")
+    asg = {}
+    for n in ast.walk(init):
+        if isinstance(n, ast.Assign) and len(n.targets) == 1 and isinstance(n.targets[0], ast.Name):
+            asg.setdefault(n.targets[0].id, []).append(n.value)
+
+    rule_start_names = set()   # `for n, r in root_tag_rules`: r is the escaped start string of tag kind n (compile_rules)
+    for comp in ast.walk(init):
+        if isinstance(comp, (ast.ListComp, ast.GeneratorExp)):
+            for g in comp.generators:
+                if isinstance(g.target, ast.Tuple) and len(g.target.elts) == 2 and all(isinstance(x, ast.Name) for x in g.target.elts) \
+                        and (ast.unparse(g.iter) == "root_tag_rules" or ast.unparse(g.iter).startswith("compile_rules(")):
+                    rule_start_names.add(g.target.elts[1].id)
+
+    def is_plain_start(e, depth=0):
+        if isinstance(e, ast.Name) and e.id in rule_start_names:
+            return True
+        if isinstance(e, ast.Call) and isinstance(e.func, ast.Name) and e.args and ast.unparse(e.args[0]).endswith(".block_start_string"):
+            return True
+        if isinstance(e, ast.Name) and e.id in asg and depth < 3:
+            return all(is_plain_start(v, depth + 1) for v in asg[e.id])
+        if isinstance(e, ast.BinOp) and isinstance(e.op, ast.Mod) and isinstance(e.left, ast.Constant) and e.left.value == "%s":
+            return is_plain_start(e.right, depth + 1)
+        return False
+
+    def is_prefix(e):
+        if isinstance(e, ast.Call) and isinstance(e.func, ast.Attribute) and e.func.attr == "get" and "prefix_re" in ast.unparse(e.func.value):
+            return True
+        if isinstance(e, ast.Name) and e.id in asg:
+            vals = asg[e.id]
+            # assigned on both arms of the lstrip_blocks test: once with the lstrip pattern, once as the plain start string
+            return any("lstrip_re" in ast.unparse(v) for v in vals) and any(is_plain_start(v) for v in vals)
+        return False
+
+    n = 0
+    for b in ast.walk(init):
+        if not (isinstance(b, ast.BinOp) and isinstance(b.op, ast.Mod) and isinstance(b.left, ast.Constant) and isinstance(b.left.value, str)):
+            continue
+        fmt = b.left.value
+        if not ("_begin>" in fmt or "endraw" in fmt):
+            continue
+        args = list(b.right.elts) if isinstance(b.right, ast.Tuple) else [b.right]
+        pos = [m.start() for m in re.finditer("%s", fmt)]
+        if len(pos) != len(args):
+            continue
+        key = re.search(r"\\s\*(raw|endraw)\\s\*", fmt)
+        opener_end = key.start() if key else len(fmt)
+        what = (key.group(1) if key else "<tag>_begin")
+        for i, (p0, a) in enumerate(zip(pos, args)):
+            after = fmt[p0 + 2:p0 + 4]
+            if fmt[p0 + 2:].startswith("_begin>") or p0 > opener_end:
+                continue   # the group name / closing delimiters
+            n += 1
+            if after in ("\\-", "\\*"):
+                ok = is_plain_start(a)
+                ctx.ob(R, rel, f"{what}: the `{after[1]}` alternative is built on the plain start string", ok, "" if ok else f"slot filled with `{ast.unparse(a)}`", b.lineno)
+            else:
+                ok = is_prefix(a)
+                ctx.ob(R, rel, f"{what}: the unmarked alternative is built on the lstrip-aware prefix", ok,
+                       "" if ok else f"slot filled with `{ast.unparse(a)}`: with lstrip_blocks the indentation before this tag is no longer stripped "
+                       "(its sibling openers use block_prefix_re) - ordinary templates lex differently from stock Jinja2", b.lineno)
+    ctx.floor(R + ":slots", n, 6)
 
 
 def _describe(alt):
